@@ -57,6 +57,16 @@ Proof. induction n; simpl; auto. Qed.
 Lemma set_nth_length {A} : forall n (v : A) l, length (set_nth n v l) = length l.
 Proof. induction n as [|n IH]; intros v [|x l]; simpl; auto. Qed.
 
+Lemma clear_part_cases c s p :
+  clear_part c s p = set_nth p None (s_parts s) \/ clear_part c s p = s_parts s.
+Proof.
+  unfold clear_part. destruct (sc_gen c); [now left|].
+  destruct (nth_error (s_parts s) p) as [[e|]|]; try (now right). destruct (e =? s_now s); [now left|now right].
+Qed.
+
+Lemma clear_part_length c s p : length (clear_part c s p) = length (s_parts s).
+Proof. destruct (clear_part_cases c s p) as [E|E]; rewrite E; [apply set_nth_length|reflexivity]. Qed.
+
 Lemma resize_length {A} : forall n (d : A) l, length (resize n d l) = n.
 Proof. induction n as [|n IH]; intros d [|x l]; simpl; auto. Qed.
 
@@ -160,7 +170,7 @@ Lemma range_step c s l s' o : UninitInv s -> RangeInv s -> sstep c s l = Some (s
 Proof.
   intros HU [H1 H2] H.
   destruct l; simpl in H; unfold_sstep H.
-  all: try (cases_in H; try some_inv H; unfold RangeInv, calc in *; simpl in *; rewrite ?set_nth_length;
+  all: try (cases_in H; try some_inv H; unfold RangeInv, calc in *; simpl in *; rewrite ?set_nth_length, ?clear_part_length;
             (split; [assumption | intros; try congruence; eauto]); fail).
   - (* v1 Provision *)
     cases_in H; some_inv H; unfold RangeInv in *; simpl in *;
@@ -503,4 +513,32 @@ Lemma lease_ret_frame c s lt s' o :
 Proof.
   simpl. unfold do_lease_ret. intro H. destruct (s_loop s) eqn:L; try discriminate.
   split; [|eauto]. cases_in H; some_inv H; unfold calc; reflexivity.
+Qed.
+
+(* ------------------------------------------------------------------ C17: stale timers (after the repair of D9) *)
+
+(* the expiry timer of a partition that was dropped by a resize and acquired again (it then carries
+   a later expiry) does not touch the new lease: the partition stays counted *)
+Lemma stale_timer_keeps_new_lease c s p e s' o :
+  sc_gen c = V2 -> nth_error (s_parts s) p = Some (Some e) -> e <> s_now s ->
+  sstep c s (SIExpire p) = Some (s', o) -> s_parts s' = s_parts s.
+Proof.
+  intros G N D H. simpl in H. unfold do_expire in H.
+  destruct (remove_timer p (s_now s) (s_timers s)); [|discriminate].
+  rewrite G in H. destruct (s_stop_req s); [discriminate|]. inv H. unfold calc. simpl.
+  unfold clear_part. rewrite G, N. destruct (e =? s_now s) eqn:E; [apply Z.eqb_eq in E; congruence|reflexivity].
+Qed.
+
+(* ... and the timer that belongs to the lease does clear it *)
+Lemma own_timer_clears c s p s' o :
+  nth_error (s_parts s) p = Some (Some (s_now s)) ->
+  sstep c s (SIExpire p) = Some (s', o) -> nth_error (s_parts s') p = Some None.
+Proof.
+  intros N H. simpl in H. unfold do_expire in H.
+  destruct (remove_timer p (s_now s) (s_timers s)); [|discriminate].
+  assert (X : nth_error (clear_part c s p) p = Some None).
+  { unfold clear_part. rewrite N, Z.eqb_refl. destruct (sc_gen c);
+      (clear - N; revert N; generalize (s_parts s); induction p as [|p IH]; intros [|x l] N; simpl in *; try discriminate; auto). }
+  destruct (sc_gen c); [inv H; simpl; exact X|].
+  destruct (s_stop_req s); [discriminate|]. inv H. unfold calc. simpl. exact X.
 Qed.
